@@ -297,6 +297,8 @@ class AttributeCollection(MutableMapping[int, Attribute]):
                             ],
                         ),
                     ],
+                    # the local AS may need 4 bytes; pack_attribute converts for 2-byte peers
+                    asn4=True,
                 )
             ),
             Attribute.CODE.LOCAL_PREF: lambda left, right: LocalPreference.from_int(100) if left == right else NOTHING,
